@@ -11,6 +11,7 @@ import (
 	"os"
 	"sort"
 	"strings"
+	"time"
 
 	"github.com/sharedcode/sop"
 	"github.com/sharedcode/sop/ai"
@@ -160,7 +161,9 @@ type domState struct {
 	ghosty      bool                 // a dedup-off upsert hit an id already in Content: documented ghost-vector territory, no direct oracle
 	everBuf     bool
 	overBatch   bool // an Optimize ran while more than 100 entries were staged
-	stagedDel   bool // an Optimize ran while a staged entry was deleted
+	stagedDel   bool // the Optimize of the current session runs while a staged entry is deleted (nil vector in TempVectors)
+	stagedState map[int]bool // ids the harness knows to be in TempVectors -> deleted while staged
+	resurrectable map[int]bool // ids that were deleted while staged when a staging Optimize consolidated them, and not written since
 	optimized   int
 	dead        bool
 	mark        int // len(events) at the start of the current session
@@ -210,7 +213,7 @@ func (r *runner) cause(d *domState, kind string) string {
 	if kind == "lost" && d.overBatch {
 		return "staged-over-100"
 	}
-	if (kind == "resurrected" || kind == "panic-optimize" || kind == "wrong-vector") && d.stagedDel {
+	if kind == "panic-optimize" && d.stagedDel {
 		return "staged-deleted"
 	}
 	return "staged"
@@ -236,6 +239,19 @@ func (r *runner) fail(d *domState, kind, what string) {
 	r.res.Count("oracle_fail." + sig)
 }
 
+// failID is fail for a symptom that concerns one id: an id that was deleted while staged and then pushed through
+// Consolidate is live again in Content and in the index (known finding resurrected/staged-deleted) — whether it is
+// seen through Get, the Content scan or a query hit is the same cause, so it carries the same signature.
+func (r *runner) failID(d *domState, kind string, id int, what string) {
+	if (kind == "resurrected" || kind == "query-not-live") && d.resurrectable[id] && !d.restaged {
+		sig := "resurrected/staged-deleted"
+		r.res.Fail(sig, fmt.Sprintf("[%s dom %s] %s", r.input.Script.Name, d.name, what), r.input)
+		r.res.Count("oracle_fail." + sig)
+		return
+	}
+	r.fail(d, kind, what)
+}
+
 // checkGet compares one Get result with the reference semantics (direct oracle).
 func (r *runner) checkGet(d *domState, id int, it *ai.Item[map[string]any], err error, where string) {
 	if d.ghosty {
@@ -250,7 +266,7 @@ func (r *runner) checkGet(d *domState, id int, it *ai.Item[map[string]any], err 
 		if !d.known[id] {
 			kind = "phantom"
 		}
-		r.fail(d, kind, fmt.Sprintf("%s: Get(%s) returned an item (vector %v) although it was deleted / never stored", where, idStr(id), it.Vector))
+		r.failID(d, kind, id, fmt.Sprintf("%s: Get(%s) returned an item (vector %v) although it was deleted / never stored", where, idStr(id), it.Vector))
 	case live:
 		if vecKey(it.Vector) != vecKey(want.vec) {
 			r.fail(d, "wrong-vector", fmt.Sprintf("%s: Get(%s) vector %v, want %v", where, idStr(id), it.Vector, want.vec))
@@ -337,7 +353,7 @@ func (r *runner) doQuery(d *domState, idx ai.VectorStore[map[string]any], buf bo
 			}
 			seen[h.ID] = true
 			if !live {
-				r.fail(d, "query-not-live", fmt.Sprintf("%s: Query returned %s which is deleted / never stored", where, h.ID))
+				r.failID(d, "query-not-live", id, fmt.Sprintf("%s: Query returned %s which is deleted / never stored", where, h.ID))
 				continue
 			}
 			if fm > 0 && it.p%fm != fr {
@@ -554,7 +570,7 @@ func (r *runner) observe(rng *hx.Rng, where string) map[*domState]*dump {
 					if !d.known[id] {
 						kind = "phantom"
 					}
-					r.fail(d, kind, fmt.Sprintf("%s: Content scan lists %s as live although it was deleted / never stored", where, idStr(id)))
+					r.failID(d, kind, id, fmt.Sprintf("%s: Content scan lists %s as live although it was deleted / never stored", where, idStr(id)))
 				}
 			}
 			for id := range d.ref {
@@ -623,7 +639,7 @@ func (r *runner) execScript(sc script) {
 	r.db = database.NewDatabase(sop.DatabaseOptions{StoresFolders: []string{dir}})
 	r.doms = nil
 	for i, m := range sc.Modes {
-		d := &domState{name: fmt.Sprintf("v%d_%d", seqCounter, i), mode: ai.UsageMode(m), ref: map[int]refItem{}, known: map[int]bool{}, vecs: map[string][]float32{}, inContent: map[int]bool{}}
+		d := &domState{name: fmt.Sprintf("v%d_%d", seqCounter, i), mode: ai.UsageMode(m), ref: map[int]refItem{}, known: map[int]bool{}, vecs: map[string][]float32{}, inContent: map[int]bool{}, stagedState: map[int]bool{}, resurrectable: map[int]bool{}}
 		d.noteVec(nil)
 		r.doms = append(r.doms, d)
 	}
@@ -691,6 +707,10 @@ func (r *runner) execScript(sc script) {
 				for _, it := range items {
 					d.known[it.ID] = true
 					d.inContent[it.ID] = true
+					delete(d.resurrectable, it.ID)
+					if buf {
+						d.stagedState[it.ID] = false
+					}
 					d.ref[it.ID] = refItem{it.Vec, it.P}
 					d.noteVec(it.Vec)
 					if d.idVecs == nil {
@@ -722,6 +742,10 @@ func (r *runner) execScript(sc script) {
 					continue
 				}
 				delete(d.ref, op.Item.ID)
+				delete(d.resurrectable, op.Item.ID)
+				if _, staged := d.stagedState[op.Item.ID]; staged && buf {
+					d.stagedState[op.Item.ID] = true
+				}
 				d.events = append(d.events, fmt.Sprintf("DEL %s %d", hx.CoqBool(buf), op.Item.ID))
 			case "get":
 				var it *ai.Item[map[string]any]
@@ -766,10 +790,17 @@ func (r *runner) execScript(sc script) {
 				if staged > 100 {
 					d.overBatch = true
 				}
-				if del {
+				_ = del
+			}
+			// a staging Optimize consolidates the staged entries, the deleted ones included; phase 4 then drops TempVectors
+			d.stagedDel = false
+			for id, deleted := range d.stagedState {
+				if deleted && buf {
 					d.stagedDel = true
+					d.resurrectable[id] = true
 				}
 			}
+			d.stagedState = map[int]bool{}
 			oldVersion := int64(d.optimized)
 			err, panicked := safe(func() error { return idxs[ss.OptDom].Optimize(r.ctx) })
 			r.res.Count("op.optimize")
@@ -1058,6 +1089,13 @@ func corpus() []script {
 	out = append(out, script{Name: "staged-delete-resurrected", Modes: []int{2}, Sessions: []sSession{
 		{Buf: one(true), Dedup: one(true), End: "optimize", Ops: []sOp{{Kind: "ups", Item: item(0, 1, 1, 0)}, {Kind: "ups", Item: item(1, 2, 0, 1)}, {Kind: "del", Item: sItem{ID: 1}}}},
 	}})
+	// same finding seen through Query: after a further index-mode Optimize the resurrected entry (nil vector) sits in a
+	// real centroid bucket and is returned as a hit with score 0
+	out = append(out, script{Name: "staged-delete-resurrected-query", Modes: []int{2}, Sessions: []sSession{
+		{Buf: one(true), Dedup: one(true), End: "optimize", Ops: []sOp{{Kind: "ups", Item: item(0, 1, 1, 0)}, {Kind: "ups", Item: item(1, 2, 0, 1)}, {Kind: "del", Item: sItem{ID: 1}}}},
+		{Buf: one(false), Dedup: one(true), End: "optimize", Ops: []sOp{{Kind: "ups", Item: item(2, 3, 1, 1)}}},
+		{Buf: one(false), Dedup: one(true), End: "commit", Ops: []sOp{{Kind: "query", Q: []float32{1, 0.37}, K: 100}}},
+	}})
 	// known finding: Consolidate migrates 100 staged entries, phase 4 drops the rest with the TempVectors store
 	var many []sItem
 	for i := 0; i < 103; i++ {
@@ -1132,9 +1170,20 @@ func runC33(cfg *hx.RunCfg) (*hx.Result, error) {
 	for _, sc := range corpus() {
 		r.execScript(sc)
 	}
-	rng := hx.NewRng(cfg.Seed)
-	for i := 0; i < n; i++ {
+	// script i is a function of (seed, i) alone; the random part also stops at a wall-clock budget so that a loaded
+	// machine shortens the run instead of overrunning the tier (the number of scripts run is in the distribution)
+	budget := 45 * time.Second
+	if cfg.Tier == "thorough" {
+		budget = 8 * time.Minute
+	}
+	if cfg.N != 0 {
+		budget = 24 * time.Hour
+	}
+	t0 := time.Now()
+	for i := 0; i < n && time.Since(t0) < budget; i++ {
+		rng := hx.NewRng(cfg.Seed*1000003 + uint64(i)*7919 + 11)
 		r.execScript(genScript(rng, fmt.Sprintf("seed%d-%d", cfg.Seed, i), false))
+		res.Count("scripts.random")
 	}
 	os.Stdout = realStdout
 	return res, nil
